@@ -1,5 +1,6 @@
 #![allow(dead_code)]
 #![cfg_attr(kani, feature(allocator_api))]
+pub mod c16_types;
 #[cfg(kani)]
 pub mod wire;
 #[cfg(kani)]
